@@ -243,3 +243,48 @@ Lemma stored_string_coerced : forall js fs c f,
 Proof.
   intros js fs c f N Hin S K. unfold stored_cfg. rewrite (find_field_in fs f N Hin). rewrite S, K. reflexivity.
 Qed.
+
+(* ------------------------------------------------------------------ failed writes and histories *)
+Lemma failed_op_io_keeps_file : forall pf js fs cur st o io code st',
+  run_sop_io pf js fs cur st o io = (code, st') -> code <> 0 -> st' = st.
+Proof.
+  intros pf js fs cur st o io code st' H N. unfold run_sop_io in H.
+  destruct (run_sop pf js fs cur st o) as [c1 s1] eqn:R. destruct io.
+  - inversion H; subst. apply (failed_op_keeps_file_lemma _ _ _ _ _ _ _ _ R N).
+  - destruct (c1 =? 0); inversion H; reflexivity.
+Qed.
+
+(* a write that fails is always reported *)
+Lemma failed_write_is_reported : forall pf js fs cur st o,
+  fst (run_sop_io pf js fs cur st o false) <> 0.
+Proof.
+  intros pf js fs cur st o. unfold run_sop_io. destruct (run_sop pf js fs cur st o) as [c1 s1].
+  destruct (c1 =? 0) eqn:E; cbn [fst]; lia.
+Qed.
+
+Lemma run_hist_cons : forall pf js fs cur st ob h,
+  run_hist pf js fs cur st (ob :: h) = run_hist pf js fs cur (snd (run_sop_io pf js fs cur st (fst ob) (snd ob))) h.
+Proof. reflexivity. Qed.
+
+(* MAIN: whatever requests of a history failed (refused, or their write to disk failed), the
+   file at the end is the one the successful requests alone produce: failures leave no trace *)
+Lemma failures_leave_no_trace_lemma : forall pf js fs cur h st,
+  run_hist pf js fs cur st h = run_hist pf js fs cur st (successes pf js fs cur st h).
+Proof.
+  intros pf js fs cur. induction h as [|ob r IH]; intro st; [reflexivity|].
+  cbn [successes]. rewrite run_hist_cons.
+  destruct (run_sop_io pf js fs cur st (fst ob) (snd ob)) as [code st'] eqn:R. cbn [snd].
+  destruct (code =? 0) eqn:E.
+  - rewrite run_hist_cons, R. cbn [snd]. apply IH.
+  - assert (N : code <> 0) by lia. rewrite (failed_op_io_keeps_file _ _ _ _ _ _ _ _ _ R N). apply IH.
+Qed.
+
+(* in particular: a failed request followed by more work = the work alone *)
+Lemma failed_then_more_lemma : forall pf js fs cur st o io h,
+  fst (run_sop_io pf js fs cur st o io) <> 0 ->
+  run_hist pf js fs cur st ((o, io) :: h) = run_hist pf js fs cur st h.
+Proof.
+  intros pf js fs cur st o io h N. rewrite run_hist_cons. cbn [fst snd].
+  destruct (run_sop_io pf js fs cur st o io) as [code st'] eqn:R. cbn [fst snd] in *.
+  rewrite (failed_op_io_keeps_file _ _ _ _ _ _ _ _ _ R N). reflexivity.
+Qed.
